@@ -105,7 +105,7 @@ where
                 }
                 command = state.commands.recv() => {
                     #[cfg(mpd_client_verif)]
-                    mpd_protocol::verif::emit("sel_command", &[("some", command.is_some() as i64)]);
+                    mpd_protocol::verif::emit("sel_command", &[]);
                     handle_command(&mut state, command).await?;
                 }
             }
@@ -169,6 +169,8 @@ where
 {
     let (command, responder) = command.ok_or(())?;
     trace!(?command, "command received");
+    #[cfg(mpd_client_verif)]
+    mpd_protocol::verif::emit("command_taken", &[]);
 
     // Cancel currently ongoing idle
     if let Err(e) = state.connection.send(cancel_idle()).await {
